@@ -128,6 +128,9 @@ pub struct Side {
     pub close_ok: bool,
     /// Bytes accepted by `send` that were still unsegmentized when `close()` returned Ok
     pub unseg_at_close: usize,
+    /// How often a passively opened endpoint was reset back to LISTEN. Every incarnation
+    /// chooses a fresh initial sequence number (as a real stack does) and starts a new stream.
+    pub incarnation: u8,
 }
 
 impl Side {
@@ -147,6 +150,7 @@ impl Side {
             rst_incoming: false,
             close_ok: false,
             unseg_at_close: 0,
+            incarnation: 0,
             life,
         }
     }
@@ -399,6 +403,13 @@ impl Sys {
                             self.side[s].life = Life::Listen;
                             self.side[s].close_called = false;
                             self.side[s].close_ok = false;
+                            // a new incarnation: what the reset connection had written is
+                            // legitimately gone and is not owed to anybody
+                            self.side[s].incarnation += 1;
+                            self.side[s].written.clear();
+                            self.side[s].written_at_close = None;
+                            self.side[s].unseg_at_close = 0;
+                            self.side[s].fin_seen = false;
                         }
                     }
                 }
@@ -406,7 +417,8 @@ impl Sys {
             Life::Listen => {
                 info.entry = "segment_arrives_listen";
                 entering("segment_arrives_listen");
-                match segment_arrives_listen(seg, local, remote, cfg.iss[s], cfg.mtu) {
+                let iss = cfg.iss[s].wrapping_add(0x1000 * self.side[s].incarnation as u32);
+                match segment_arrives_listen(seg, local, remote, iss, cfg.mtu) {
                     Some(ListenResult::Tcb(tcb)) => {
                         self.side[s].tcb = Some(tcb);
                         self.side[s].life = Life::Open;
@@ -599,7 +611,11 @@ impl Sys {
             v.sort();
             let _ = write!(out, "|{:?}", v);
         }
-        let _ = write!(out, "|{} {} {}", self.drops_done, self.dups_done, self.old_syn_done);
+        let _ = write!(
+            out,
+            "|{} {} {} {} {}",
+            self.drops_done, self.dups_done, self.old_syn_done, self.side[A].incarnation, self.side[B].incarnation
+        );
         out
     }
 
